@@ -64,6 +64,8 @@ def callsite_obligations(eng, suffix, arg, st, e):
     k = eng.call_counts.get(suffix, 0)
     eng.call_counts[suffix] = k + 1
     for cl in c.callsites.get(suffix, []):
+        if not eng.rel(cl):
+            continue
         s2 = st.copy()
         s2.env["arg"] = arg
         g = eng.eval_clause(cl, s2, pre=eng.entry_state, polarity=1)
